@@ -8,6 +8,7 @@ package main
 //	      | enc:<seed>               encode a generated file with its own encoder into its own buffer
 //	      | file:<ft>:<seed>:<mode>  build a file of type <ft> from generated messages, ToFIT(options)
 //	      | lis:<ft>:<seed>:<N>      feed generated messages to its own listener, File(), ToFIT(nil)
+//	      | lisc:<ft>:<seed>:<N>:<c>  as lis, with its own copy of PredefinedFileSet() in which file type <c> is a user-defined wrapper
 //	      | fac:<num>                factory.CreateMesg(num) and CreateField for a few numbers
 //	      | open:<a>.<b>...          opener.Open over fixtures (its own pool of decoders, own workers)
 //	   mode = n (nil options) | o (its own &Options{}) | s (ONE options object with Factory set, shared by all ops of
@@ -226,6 +227,38 @@ func runConcOp(op string, sh *concShared, solo bool) (res uint64) {
 		} else {
 			digestMesgs(&h, f.ToFIT(nil).Messages)
 		}
+	case "lisc":
+		// a listener whose user customised ITS OWN copy of the predefined file sets, as the doc of PredefinedFileSet
+		// invites: file type c gets a wrapper type. Other users' sets must not see it (seeded change C15-3: the
+		// map returned by PredefinedFileSet cached at package level). The digest says whether the wrapper came back;
+		// execConcurrent demands that it does exactly when the file fed has type c.
+		ftb, _ := strconv.Atoi(p[1])
+		seed, _ := strconv.ParseUint(p[2], 10, 64)
+		n, _ := strconv.Atoi(p[3])
+		c, _ := strconv.Atoi(p[4])
+		fs := filedef.PredefinedFileSet()
+		fs[typedef.File(c)] = func() filedef.File { return &concCustomFile{inner: filedef.NewActivity()} }
+		l := filedef.NewListener(filedef.WithChannelBuffer(uint(n)), filedef.WithFileSets(fs))
+		for _, m := range genValidMesgs(byte(ftb), seed, 5+int(seed%40)) {
+			l.OnMesg(m)
+		}
+		f := l.File()
+		l.Close()
+		custom := false
+		if cf, ok := f.(*concCustomFile); ok {
+			custom, f = true, cf.inner
+		}
+		if f == nil {
+			h.str("nil")
+		} else {
+			digestMesgs(&h, f.ToFIT(nil).Messages)
+		}
+		if custom != (c == ftb) {
+			return 0xBADC // never equal to a solo digest of a healthy run: reported as interference
+		}
+		if solo {
+			note(fmt.Sprintf("lisc:custom=%v", custom))
+		}
 	case "fac":
 		num, _ := strconv.Atoi(p[1])
 		m := factory.CreateMesg(typedef.MesgNum(num))
@@ -270,6 +303,12 @@ func runConcOp(op string, sh *concShared, solo bool) (res uint64) {
 	return uint64(h)
 }
 
+// concCustomFile is the user-defined file type of the lisc operation
+type concCustomFile struct{ inner filedef.File }
+
+func (c *concCustomFile) Add(m proto.Message)                     { c.inner.Add(m) }
+func (c *concCustomFile) ToFIT(o *mesgdef.Options) proto.FIT { return c.inner.ToFIT(o) }
+
 func execConcurrent(args []string) string {
 	if len(args) > 0 && args[0] == "fresh" {
 		if os.Getenv("VERIF_CONC_CHILD") != "" {
@@ -301,7 +340,7 @@ func execConcurrent(args []string) string {
 	ops := args[3:]
 	for _, o := range ops {
 		switch strings.Split(o, ":")[0] {
-		case "dec", "decl", "enc", "file", "lis", "fac", "open":
+		case "dec", "decl", "enc", "file", "lis", "lisc", "fac", "open":
 		default:
 			return "bad-op"
 		}
@@ -329,7 +368,7 @@ func execConcurrent(args []string) string {
 	sb.WriteString("same=")
 	for i, o := range ops {
 		solo := runConcOp(o, &concShared{optSet: mesgdef.DefaultOptions(), optNil: &mesgdef.Options{}}, true)
-		if solo == res[i] {
+		if solo == res[i] && res[i] != 0xBADC {
 			sb.WriteByte('1')
 		} else {
 			sb.WriteByte('0')
@@ -388,8 +427,12 @@ func genConcurrent(emit func(string), tier string, rng *Rng) {
 				}
 				op = fmt.Sprintf("file:%d:%d:%s", fts[rng.Intn(len(fts))].b, 1+rng.Intn(1<<30), mode)
 				count("optmode:" + mode)
-			case x < 16:
+			case x < 15:
 				op = fmt.Sprintf("lis:%d:%d:%d", fts[rng.Intn(len(fts))].b, 1+rng.Intn(1<<30), []int{1, 2, 3, 8, 128}[rng.Intn(5)])
+			case x < 16:
+				ft := fts[rng.Intn(len(fts))].b
+				c := []int{int(ft), 4, 4, 0xF7, int(fts[rng.Intn(len(fts))].b)}[rng.Intn(5)]
+				op = fmt.Sprintf("lisc:%d:%d:%d:%d", ft, 1+rng.Intn(1<<30), []int{1, 8, 128}[rng.Intn(3)], c)
 			case x < 19:
 				op = fmt.Sprintf("fac:%d", []int{0, 18, 19, 20, 21, 23, 34, 49, 101, 206, 207, 65280}[rng.Intn(12)])
 			default:
